@@ -35,6 +35,9 @@ class ProcessExecutor:
             )
         except ValueError as ex:
             raise ProcessExecutionException(ex)
+        except OverflowError as ex:
+            # E.g. a timeout that is too large to be converted to a float
+            raise ProcessExecutionException(ex)
         except OSError as ex:
             raise ProcessExecutionException(ex)
         except subprocess.TimeoutExpired as ex:
